@@ -12,18 +12,9 @@ Definition lops10 : list lop :=
                                       all_atoms)) c10_tables)
    ++ concat (map (fun T => map (fun k => LInit k T) init_keys) c10_tables))%list.
 
-(* what a script asserts about table.properties *)
-Definition requires_of (key : string) : list N :=
-  concat (map (fun e => match e with RRequire k => [k] | _ => [] end) (rscript key)).
-
-(* admitted: as for C09, and an init whose `assert key in table.properties` would fail is not admitted
-   (it raises after having appended its own key: see failed_init_refuted) *)
-Definition safe10 (t : pstate) (o : lop) : bool :=
-  safe09 t o &&
-  match o with
-  | LInit key T => forallb (fun k => has_prop (p_base t) T k || has_prop (p_g t) T k) (requires_of key)
-  | _ => true
-  end.
+(* admitted: everything (the C09 side-condition lists are empty since the repairs; an init whose
+   `assert key in table.properties` fails raises BEFORE appending its key since 9478875, so it may be repeated) *)
+Definition safe10 (t : pstate) (o : lop) : bool := safe09 t o.
 
 (* has table X been initialised for the group of name n?  its properties list holds the loader's key; for a
    loader without a key (init_spectral_lines): the covered representative holds loader data *)
@@ -238,6 +229,19 @@ Proof.
   apply (good_init lops10 [P1; P2] safe10 expect10 R10 CHK10).
 Qed.
 
+Lemma safe_run10_always : forall h s, safe_run10 s h.
+Proof.
+  induction h as [|e r IH]; intros s; simpl; auto. split; [|apply IH].
+  destruct e; try reflexivity. unfold safe_ev10, safe_at, safe10. apply safe09_true.
+Qed.
+
+(* C10 at full strength over the alphabet without assignments: any interleaving of the creation of two private
+   tables, the nine inits on the public and both private tables in any order relative to any use of the public
+   table, reads / hasattr / calculators on every table and imports: every observation of the public table is
+   canonical and every read of a private table initialised for the group of the name is canonical *)
+Theorem isolation : forall h, forallb ev_in10 h = true -> all_expected10 init_state h = true.
+Proof. intros h I. apply isolation_partial; [exact I|apply safe_run10_always]. Qed.
+
 (* reading the expectation: public observations; private reads *)
 Lemma expected10_public_read : forall s a n oc, expected10 s (Read Pub a n) oc = outcome_eqb oc OSame.
 Proof. reflexivity. Qed.
@@ -261,23 +265,23 @@ Proof.
     cbn [fst] in A2. apply IH; assumption.
 Qed.
 
-Theorem public_unaffected_partial : forall h i a n,
-  forallb ev_in10 h = true -> safe_run10 init_state h ->
+Theorem public_unaffected : forall h i a n,
+  forallb ev_in10 h = true ->
   nth_error h i = Some (Read Pub a n) -> nth i (run init_state h) OOk = OSame.
 Proof.
-  intros h i a n I S He. pose proof (isolation_partial h I S) as A.
+  intros h i a n I He. pose proof (isolation h I) as A.
   pose proof (all_expected10_nth h init_state i _ A He) as X.
   rewrite expected10_public_read in X. apply outcome_eqb_eq in X. exact X.
 Qed.
 
-Theorem fresh_private_equals_public_partial : forall h i X a n,
-  forallb ev_in10 h = true -> safe_run10 init_state h ->
+Theorem fresh_private_equals_public : forall h i X a n,
+  forallb ev_in10 h = true ->
   nth_error h i = Some (Read X a n) -> X <> Pub -> N.eqb (group_of_name n) 0 = false ->
   exists_tab (exec init_state (firstn i h)) X = true ->
   inited (proj (group_of_name n) (exec init_state (firstn i h))) X (group_of_name n) = true ->
   nth i (run init_state h) OOk = OSame.
 Proof.
-  intros h i X a n I S He NP Hg E Hi. pose proof (isolation_partial h I S) as A.
+  intros h i X a n I He NP Hg E Hi. pose proof (isolation h I) as A.
   pose proof (all_expected10_nth h init_state i _ A He) as Q.
   rewrite (expected10_private_read _ X a n _ E NP Hg Hi) in Q. apply outcome_eqb_eq in Q. exact Q.
 Qed.
@@ -294,13 +298,13 @@ Definition setmut_ops (g : N) : list lop :=
 
 Definition pbase (g : N) (t : pstate) : option gstate := if N.eqb g 0 then None else Some (p_base t).
 
-(* admitted: an assignment whose class-level attribute is not a pending delayed-load property; a mutation of
-   an object the table owns (not a module-level object, not a class-level default) *)
+(* admitted: every assignment (the setter of a pending property loads the public table first since 706f0ce);
+   a mutation of any object except the class-level default Neutron (`missing`), which is one object for every
+   atom without neutron data in every table (known finding C10:neutron-default-object-shared) *)
 Definition safe_setmut (g : N) (t : pstate) (o : lop) : bool :=
   match o with
-  | LSetA T a n => match cget (p_g t) (cls_of a) (nid n) with Some (CPending _) => false | _ => true end
   | LMut T a n => match getattr (pbase g t) FUEL T a (nid n) (p_g t) with
-                  | (_, RVal _ (Some (OShared _ _))) | (_, RVal _ (Some (ODefault _ _))) => false
+                  | (_, RVal _ (Some (ODefault _ _))) => false
                   | _ => true
                   end
   | _ => true
@@ -371,19 +375,19 @@ Proof.
   rewrite Eg, N.eqb_refl, E in A. exact A.
 Qed.
 
-(* mutable objects: two different tables serve the same object only when it is a module-level object or a
-   class-level default; such objects exist only for crystal_structure and neutron *)
+(* mutable objects: two different tables serve the same object only when it is the class-level default of
+   `neutron` (no module-level object is stored in an atom any more since f23caea) *)
 Definition served_obj (g : N) (t : pstate) (X : table) (a : atom) (n : string) : option obj :=
   match getattr (pbase g t) FUEL X a (nid n) (p_g t) with (_, RVal _ o) => o | _ => None end.
 Definition obj_eqb (o p : obj) : bool := N.eqb (ocode o) (ocode p).
-Definition is_shared (o : obj) : bool := match o with OShared _ _ | ODefault _ _ => true | _ => false end.
+Definition is_shared (o : obj) : bool := match o with ODefault _ _ => true | _ => false end.
 Definition disjoint_check (g : N) : bool :=
   forallb (fun t =>
     forallb (fun a => forallb (fun n =>
       forallb (fun X => forallb (fun Y =>
         if table_eqb X Y then true else
         match served_obj g t X a n, served_obj g t Y a n with
-        | Some o, Some p => implb (obj_eqb o p) (is_shared o && str_in n ["crystal_structure"; "neutron"])
+        | Some o, Some p => implb (obj_eqb o p) (is_shared o && str_in n ["neutron"])
         | _, _ => true
         end) c10_tables) c10_tables) (names_of_group g)) read_atoms) (R10 g).
 Lemma disjoint_check_all : forallb disjoint_check all_groups = true.
@@ -391,7 +395,7 @@ Proof. vm_cast_no_check (eq_refl true). Qed.
 Theorem mutable_disjoint_partial : forall g t X Y a n o p, In g all_groups -> InvG10 g t ->
   In a read_atoms -> In n (names_of_group g) -> X <> Y ->
   served_obj g t X a n = Some o -> served_obj g t Y a n = Some p -> obj_eqb o p = true ->
-  is_shared o = true /\ (n = "crystal_structure" \/ n = "neutron").
+  is_shared o = true /\ n = "neutron".
 Proof.
   intros g t X Y a n o p Hg I Ha Hn NE SX SY EQ.
   pose proof disjoint_check_all as A. rewrite forallb_forall in A. specialize (A g Hg).
@@ -403,56 +407,35 @@ Proof.
   specialize (A HX Y HY).
   assert (table_eqb X Y = false) as NEb by (destruct X, Y; try reflexivity; contradiction).
   rewrite NEb, SX, SY, EQ in A. simpl in A. apply andb_true_iff in A. destruct A as [A1 A2].
-  split; [exact A1|]. simpl in A2. apply orb_true_iff in A2. destruct A2 as [A2|A2].
-  - left. apply String.eqb_eq in A2. exact A2.
-  - apply orb_true_iff in A2. destruct A2 as [A2|A2]; [right; apply String.eqb_eq in A2; exact A2|discriminate].
+  split; [exact A1|]. simpl in A2. apply orb_true_iff in A2. destruct A2 as [A2|A2]; [|discriminate].
+  apply String.eqb_eq in A2. exact A2.
 Qed.
 
-(* ------------------------------------------------------------------ where isolation breaks (faithful model) *)
+(* ------------------------------------------------------------------ what is left of the refutations *)
 Definition priv (T : table) (h : list event) : list event := (New T :: Init "density.init" T :: h)%list.
 
-(* public_unaffected at full strength is false: init(T) for four loaders before the public first touch *)
-Theorem public_unaffected_refuted :
-  run init_state (priv P2 [Init "nsf.init" P2; Read Pub E1 "neutron"]) = [OOk; OOk; OOk; ODiff]
-  /\ run init_state (priv P2 [Init "covalent_radius.init" P2; Read Pub E1 "covalent_radius"]) = [OOk; OOk; OOk; ODiff]
-  /\ run init_state (priv P2 [Init "crystal_structure.init" P2; Read Pub E1 "crystal_structure"]) = [OOk; OOk; OOk; OErr AttrErr]
-  /\ run init_state (priv P2 [Init "xsf.init_spectral_lines" P2; Read Pub E1 "K_alpha"]) = [OOk; OOk; OOk; OErr AttrErr].
-Proof. repeat split; vm_compute; reflexivity. Qed.
-
-(* an assignment on a private table while the attribute is still a pending property clears the property for
-   every table: the public table is never loaded *)
-Theorem assignment_while_pending_refuted :
-  run init_state [New P1; SetA P1 E1 "neutron"; Read Pub E1 "neutron"; Read Pub E0 "neutron"]
-  = [OOk; OOk; OErr AttrErr; OErr AttrErr]
-  /\ forall g, In g [1; 2; 3; 5; 6; 7]%N ->
-       exists n, group_of_name n = g /\
-         nth 2 (run init_state [New P1; SetA P1 E1 n; Read Pub E1 n]) OSame = OErr AttrErr.
-Proof.
-  split; [vm_compute; reflexivity|].
-  intros g H. simpl in H.
-  destruct H as [H|[H|[H|[H|[H|[H|[]]]]]]]; subst g;
-    [exists "covalent_radius"|exists "crystal_structure"|exists "neutron"|exists "xray"|exists "K_alpha"|exists "magnetic_ff"];
-    split; vm_compute; reflexivity.
-Qed.
-
-(* mutable_disjoint at full strength is false: the crystal_structure dictionaries are module-level objects
-   shared by all tables, and the class-level `missing` Neutron serves every atom without neutron data *)
+(* mutable_disjoint at full strength is still false for one object: the class-level `missing` Neutron serves
+   every atom without neutron data, in every table (known finding C10:neutron-default-object-shared) *)
 Theorem mutable_disjoint_refuted :
-  run init_state [Read Pub E1 "crystal_structure"; New P1; Init "crystal_structure.init" P1;
-                  Mut P1 E1 "crystal_structure"; Read Pub E1 "crystal_structure"; Read P1 E1 "crystal_structure"]
-  = [OSame; OOk; OOk; OOk; ODiff; OUser]
-  /\ run init_state (Read Pub E1 "neutron" :: priv P1 [Init "nsf.init" P1; Mut P1 E0 "neutron";
-                                                       Read Pub E0 "neutron"; Read Pub E1 "neutron"])
-     = [OSame; OOk; OOk; OOk; OOk; ODiff; OSame].
-Proof. split; vm_compute; reflexivity. Qed.
+  run init_state (Read Pub E1 "neutron" :: priv P1 [Init "nsf.init" P1; Mut P1 E0 "neutron";
+                                                    Read Pub E0 "neutron"; Read Pub E1 "neutron"])
+  = [OSame; OOk; OOk; OOk; OOk; ODiff; OSame].
+Proof. vm_compute. reflexivity. Qed.
 
-(* fresh_private_equals_public at full strength is false: init_spectral_lines(T) while the group is pending
-   deletes the class-level units it has just installed; an init that fails its assert has already appended its
-   key, so the repeated call returns at once and the table keeps the placeholder *)
-Theorem fresh_private_refuted :
-  run init_state [New P1; Init "xsf.init_spectral_lines" P1; Read P1 E1 "K_alpha"; Read P1 E1 "K_alpha_units"]
-  = [OOk; OOk; OSame; OErr AttrErr]
+(* the histories that broke isolation before the repairs (witnesses of the former `_refuted` theorems) *)
+Theorem former_witnesses_isolated :
+  run init_state (priv P2 [Init "nsf.init" P2; Read Pub E1 "neutron"]) = [OOk; OOk; OOk; OSame]
+  /\ run init_state (priv P2 [Init "covalent_radius.init" P2; Read Pub E1 "covalent_radius"]) = [OOk; OOk; OOk; OSame]
+  /\ run init_state (priv P2 [Init "crystal_structure.init" P2; Read Pub E1 "crystal_structure"]) = [OOk; OOk; OOk; OSame]
+  /\ run init_state (priv P2 [Init "xsf.init_spectral_lines" P2; Read Pub E1 "K_alpha"]) = [OOk; OOk; OOk; OSame]
+  /\ run init_state [New P1; SetA P1 E1 "neutron"; Read Pub E1 "neutron"; Read Pub E0 "neutron"; Read P1 E1 "neutron"]
+     = [OOk; OOk; OSame; OSame; OUser]
+  /\ run init_state [Read Pub E1 "crystal_structure"; New P1; Init "crystal_structure.init" P1;
+                     Mut P1 E1 "crystal_structure"; Read Pub E1 "crystal_structure"; Read P1 E1 "crystal_structure"]
+     = [OSame; OOk; OOk; OOk; OSame; OUser]
+  /\ run init_state [New P1; Init "xsf.init_spectral_lines" P1; Read P1 E1 "K_alpha"; Read P1 E1 "K_alpha_units"]
+     = [OOk; OOk; OSame; OSame]
   /\ run init_state [Read Pub E1 "neutron"; New P1; Init "nsf.init" P1; Init "density.init" P1; Init "nsf.init" P1;
                      Read P1 E1 "neutron"]
-     = [OSame; OOk; OErr AssertErr; OOk; OOk; ODiff].
-Proof. split; vm_compute; reflexivity. Qed.
+     = [OSame; OOk; OErr AssertErr; OOk; OOk; OSame].
+Proof. repeat split; vm_compute; reflexivity. Qed.
